@@ -50,6 +50,12 @@ def run_case(ck: Check, case: dict):
     for qi, (start, kw) in enumerate(queries):
         maxd = kw.get("max_diameter") or 50
         depth = min(maxd, len(ball_layers) - 1)
+        if "max_layer_size_to_explore" in kw:
+            # documented rule: the ball ends with the first new layer that has at least that many states
+            hit = next((i for i in range(1, len(ball_layers)) if len(ball_layers[i]) >= kw["max_layer_size_to_explore"]), None)
+            if hit is not None:
+                depth = min(depth, hit)
+                ck.count("ball ended by the layer-size limit" if hit <= depth else "layer-size limit not reached")
         dmap = ctx.dists_from(start)
         d = dmap.get(gd.pack(gd.central))
         reach = d is not None and d <= 2 * depth
@@ -110,8 +116,9 @@ def gen_case(ck, cap):
             kw = {}
             if rng.random() < 0.6:
                 kw["max_diameter"] = rng.choice([1, 2, max(1, ecc // 2), ecc, ecc + 3])
-            if rng.random() < 0.15:
-                kw["max_layer_size_to_explore"] = rng.choice([10**6, 10**5])
+            if rng.random() < 0.3:
+                sizes = [len(l) for l in layers]
+                kw["max_layer_size_to_explore"] = rng.choice([10**6, 10**5, 1, 2, rng.choice(sizes), rng.choice(sizes) + 1, max(sizes), max(1, rng.choice(sizes) - 1)])
             queries.append([s, kw])
         return {"gd": gd.to_json(), "cfg": graphs.gen_cfg(rng, gd), "queries": queries}
     raise RuntimeError("no case")
